@@ -143,6 +143,13 @@ class Sym:
 
 def _grid(a):
     kw = dict(a.get('fast_kw', {}))
+    if a.get('mesh'):                    # device mesh (z, x, y): FastSphericalHarmonics with model parallelism
+        m = dyn.mods(); jax = m['jax']; sh = m['sh']
+        z, x, y = a['mesh']
+        mesh = jax.sharding.Mesh(np.array(jax.devices()[: z * x * y]).reshape(z, x, y), ('z', 'x', 'y'))
+        return sh.Grid(longitude_wavenumbers=a['M'], total_wavenumbers=a['L'], longitude_nodes=a['I'], latitude_nodes=a['J'],
+                       latitude_spacing=a.get('spacing', 'gauss'), longitude_offset=a.get('offset', 0.0), radius=a.get('radius'),
+                       spherical_harmonics_impl=sh.FastSphericalHarmonics, spmd_mesh=mesh)
     return dyn.grid(M=a['M'], L=a['L'], I=a['I'], J=a['J'], spacing=a.get('spacing', 'gauss'), impl=a.get('impl', 'real'),
                     offset=a.get('offset', 0.0), radius=a.get('radius'), **kw)
 
@@ -185,6 +192,8 @@ GRIDS_QUICK = [dict(M=4, L=5, I=13, J=7, spacing='gauss', impl='real', offset=0.
                dict(M=4, L=5, I=6, J=7, spacing='gauss', impl='real', offset=0.0, radius=2.5)]
 GRIDS_THOROUGH = GRIDS_QUICK + [
     dict(M=2, L=3, I=96, J=4, spacing='gauss', impl='real', offset=0.0),                 # wide
+    dict(M=4, L=5, I=13, J=7, spacing='gauss', impl='fast', offset=0.0, mesh=[1, 2, 2]),
+    dict(M=3, L=4, I=10, J=6, spacing='equiangular', impl='fast', offset=0.2, mesh=[2, 2, 2], radius=2.0),
     dict(M=2, L=3, I=4, J=48, spacing='equiangular', impl='fast', offset=0.0),           # tall
     dict(M=3, L=7, I=10, J=9, spacing='gauss', impl='real', offset=0.0, radius=0.5),     # total_wavenumbers > M + 1
     dict(M=4, L=5, I=13, J=7, spacing='gauss', impl='fast', offset=0.0, fast_kw=dict(base_shape_multiple=8)),
@@ -209,8 +218,9 @@ def generate(ctx):
         yield 'tables', dict(g)
         yield 'actions', dict(g, seed=int(rng.integers(0, 2 ** 31)))
         yield 'sht', dict(g, seed=int(rng.integers(0, 2 ** 31)))
-        yield 'ops', dict(g, seed=int(rng.integers(0, 2 ** 31)))
-    for g in (grids[:2] + grids[5:6]) if quick else grids[:8]:
+        if not g.get('mesh'):             # (eager shard_map operators are slow; sharded = unsharded is property C12's business)
+            yield 'ops', dict(g, seed=int(rng.integers(0, 2 ** 31)))
+    for g in (grids[:2] + grids[5:6]) if quick else [gg for gg in grids[:10] if not gg.get('mesh')]:
         yield 'radius', dict(g, seed=int(rng.integers(0, 2 ** 31)))
     for g in grids[:2] if quick else grids[:3]:
         yield 'diag', dict(g, seed=int(rng.integers(0, 2 ** 31)))
@@ -339,28 +349,29 @@ def r_tables(ctx, a):
     ctx.table_obligation('H_lon_nodes (longitudes = offset + 2 pi i / I) ' + tag, e5 <= 1e-14, {'err': e5, 'first': float(lon[0])})
     # Coriolis table: model vs implementation, invariant under shifts, odd under reversal
     c = dyn.coords(g, [0.0, 0.5, 1.0]); specs = dyn.pe_specs()
+    gc = c.horizontal            # (the coordinate system's own grid: un-sharded copy when g carries a device mesh)
     eq = dyn.pe_equation('dry', c, specs, [250.0, 250.0])
     cor = np.asarray(eq.coriolis_parameter, dtype=np.float64)
     om = float(specs.angular_velocity)
-    mo = ctx.model.call(5, [g.nodal_shape[0], g.nodal_shape[1]], [[om], _sin_lat_padded(g, a)])
+    mo = ctx.model.call(5, [gc.nodal_shape[0], gc.nodal_shape[1]], [[om], _sin_lat_padded(gc, a)])
     ctx.corr('coriolis_parameter (primitive equations) vs model', cor, mo, scale=2 * abs(om))
     pe = dyn.mods()['pe']; scales = dyn.mods()['scales']
     for fac in (2.0, 0.5):
         specs2 = pe.PrimitiveEquationsSpecs.from_si(angular_velocity_si=fac * scales.ANGULAR_VELOCITY)
         eq2 = dyn.pe_equation('dry', c, specs2, [250.0, 250.0])
         om2 = float(specs2.angular_velocity)
-        mo3 = ctx.model.call(5, [g.nodal_shape[0], g.nodal_shape[1]], [[om2], _sin_lat_padded(g, a)])
+        mo3 = ctx.model.call(5, [gc.nodal_shape[0], gc.nodal_shape[1]], [[om2], _sin_lat_padded(gc, a)])
         for n in (1, 2):
             ctx.corr(f'coriolis_parameter (primitive equations, {fac} x Earth rotation, read #{n} on the same coordinates) vs model',
                      np.asarray(eq2.coriolis_parameter, dtype=np.float64), mo3, scale=2 * abs(om2))
     swc = dyn.layer_coords(g, 1)
     sweq = dyn.sw_equation(swc, [1.0], [1.0], omega=0.75)
     cor2 = np.asarray(sweq.coriolis_parameter, dtype=np.float64)
-    mo2 = ctx.model.call(5, [g.nodal_shape[0], g.nodal_shape[1]], [[0.75], _sin_lat_padded(g, a)])
+    mo2 = ctx.model.call(5, [gc.nodal_shape[0], gc.nodal_shape[1]], [[0.75], _sin_lat_padded(gc, a)])
     ctx.corr('coriolis_parameter (shallow water) vs model', cor2, mo2, scale=1.5)
     for nm, cc in (('primitive equations', cor), ('shallow water', cor2)):
-        ctx.oracle_close(f'Coriolis field invariant under longitude shifts ({nm})', shift_np(g, cc, 1), cc, tol_rel=1e-14)
-        ctx.oracle_close(f'Coriolis field odd under latitude reversal ({nm})', flip_np(g, cc)[:I, :J], -cc[:I, :J], tol_rel=1e-14)
+        ctx.oracle_close(f'Coriolis field invariant under longitude shifts ({nm})', shift_np(gc, cc, 1), cc, tol_rel=1e-14)
+        ctx.oracle_close(f'Coriolis field odd under latitude reversal ({nm})', flip_np(gc, cc)[:I, :J], -cc[:I, :J], tol_rel=1e-14)
 
 
 # ---------------------------------------------------------------------------
@@ -429,11 +440,11 @@ def _close(ctx, clause, lhs, rhs, floor=0.0):
 def r_sht(ctx, a):
     g = _grid(a); rng = np.random.Generator(np.random.PCG64(a['seed']))
     I, J = g.longitude_nodes, g.latitude_nodes
-    for lead in ((2,), (), (2, 3)):           # field ranks 2..4, different content per slice
+    for lead in (((2,), ()) if a.get('mesh') else ((2,), (), (2, 3))):           # field ranks 2..4, different content per slice
         x = dyn.modal_field(rng, g, lead, degree=g.total_wavenumbers - 1)
         z = np.zeros(lead + tuple(g.nodal_shape)); z[..., :I, :J] = util.small_rationals(rng, lead + (I, J))
         zx = np.asarray(g.to_nodal(x)); az = np.asarray(g.to_modal(z))
-        for T in (_syms(g, rng) if lead == (2,) else _syms(g, rng, ks=1)):
+        for T in (_syms(g, rng) if lead == (2,) and not a.get('mesh') else _syms(g, rng, ks=1)):
             _close(ctx, 'to_nodal is equivariant: to_nodal(T x) = T to_nodal(x)', np.asarray(g.to_nodal(T.modal(x))), T.nodal(zx))
             _close(ctx, 'to_modal is equivariant: to_modal(T z) = T to_modal(z)', np.asarray(g.to_modal(T.nodal(z))), T.modal(az))
             _close(ctx, 'integrate is invariant: integrate(T z) = integrate(z)', np.asarray(g.integrate(T.nodal(z))), np.asarray(g.integrate(z)),
